@@ -25,7 +25,7 @@ def con_s(con):
 ONE_DIM = ["gss", "brent", "brentin", "newton1", "nback"]
 MULTI = ["simple", "snewton", "powell", "simplex", "cg", "bfgs", "meta"]
 # kinds whose model is run by the driver (bit-exact tie); the others are explored through the predicates only
-MODELLED = set(["gss", "brent", "brentin", "nback", "newton1", "simple", "snewton", "simplex"])
+MODELLED = set(["gss", "brent", "brentin", "nback", "newton1", "simple", "snewton", "simplex", "powell", "cg", "bfgs"])
 
 
 def rand_orth(r, n):
@@ -235,6 +235,25 @@ def gen_case(rng, idx, tier):
         lines.append("optimize")
     else:
         lines.append("optimize")
+        lines.append("optimize")
+    # the same optimiser used again: another budget, init from another start (state left by the first run)
+    if r.random() < 0.12:
+        if r.random() < 0.6:
+            lines.append("setmax %d" % r.choice([0, 1, 1, 2, 3, 5, 50, 2000]))
+        start2 = {}
+        for k in sel:
+            v = start[k]
+            if kind != "nback":
+                w = v + r.uniform(-1, 1)
+                c = cons.get(k)
+                if c is not None:
+                    lo, hi = c[0], c[1]
+                    if (lo is None or lo + 1e-6 < w) and (hi is None or w < hi - 1e-6):
+                        v = w
+                else:
+                    v = w
+            start2[k] = v
+        lines.append("init %d %s" % (len(sel), " ".join("%d %s %s" % (k, hx(start2[k]), con_s(cons.get(k))) for k in sel)))
         lines.append("optimize")
     return lines
 
